@@ -1,25 +1,25 @@
 (* Boolean character classes of the lexer model = the character classes of the specification;
-   facts about span; how lex_one dispatches on the first character. *)
+   facts about lx_span; how lex_one dispatches on the first character. *)
 From ApolloVerif Require Import Base.Chars Lex.Item Lex.Fun Lex.Spec Lex.LexProofs.
 From Coq Require Import ZifyBool ZifyN.
 
 Lemma is_digit_spec c : is_digit c = true <-> Digit c.
 Proof. unfold is_digit, Digit. lia. Qed.
-Lemma is_ws_spec c : is_ws c = true <-> IgnoredChar c.
-Proof. unfold is_ws, IgnoredChar, UnicodeBOM, WhiteSpaceChar, LineTerminatorChar. lia. Qed.
-Lemma is_line_term_spec c : is_line_term c = true <-> LineTerminatorChar c.
-Proof. unfold is_line_term, LineTerminatorChar. lia. Qed.
-Lemma is_hex_spec c : is_hex c = true <-> HexDigit c.
-Proof. unfold is_hex, is_digit, HexDigit, Digit. lia. Qed.
-Lemma is_escaped_char_spec c : is_escaped_char c = true <-> EscapedCharacter c.
-Proof. unfold is_escaped_char, EscapedCharacter. lia. Qed.
-Lemma is_exp_ind_spec c : is_exp_ind c = true <-> ExponentIndicator c.
-Proof. unfold is_exp_ind, ExponentIndicator. lia. Qed.
-Lemma is_surrogate_spec v : is_surrogate v = true <-> Surrogate v.
-Proof. unfold is_surrogate, Surrogate. lia. Qed.
-Lemma hexval_spec c : HexDigit c -> hexval c = hex_digit_value c.
+Lemma is_ws_spec c : lx_is_ws c = true <-> IgnoredChar c.
+Proof. unfold lx_is_ws, IgnoredChar, UnicodeBOM, WhiteSpaceChar, LineTerminatorChar. lia. Qed.
+Lemma is_line_term_spec c : lx_is_line_term c = true <-> LineTerminatorChar c.
+Proof. unfold lx_is_line_term, LineTerminatorChar. lia. Qed.
+Lemma is_hex_spec c : lx_is_hex c = true <-> HexDigit c.
+Proof. unfold lx_is_hex, is_digit, HexDigit, Digit. lia. Qed.
+Lemma is_escaped_char_spec c : lx_is_escaped_char c = true <-> EscapedCharacter c.
+Proof. unfold lx_is_escaped_char, EscapedCharacter. lia. Qed.
+Lemma is_exp_ind_spec c : lx_is_exp_ind c = true <-> ExponentIndicator c.
+Proof. unfold lx_is_exp_ind, ExponentIndicator. lia. Qed.
+Lemma is_surrogate_spec v : lx_is_surrogate v = true <-> Surrogate v.
+Proof. unfold lx_is_surrogate, Surrogate. lia. Qed.
+Lemma hexval_spec c : HexDigit c -> lx_hexval c = hex_digit_value c.
 Proof.
-  unfold HexDigit, Digit, hexval, hex_digit_value, is_digit. intros H.
+  unfold HexDigit, Digit, lx_hexval, hex_digit_value, is_digit. intros H.
   destruct ((48 <=? c) && (c <=? 57)) eqn:E1; destruct (c <=? 57) eqn:E2; destruct (c <=? 70) eqn:E3;
     try reflexivity; lia.
 Qed.
@@ -35,21 +35,21 @@ Proof.
   - rewrite andb_true_iff, IH, H. split; [intros [? ?]; constructor; auto|inversion 1; auto].
 Qed.
 
-(* ---------- span ---------- *)
-Lemma span_nil p s : match s with [] => True | c :: _ => p c = false end -> span p s = ([], s).
-Proof. destruct s as [|c r]; cbn [span]; [reflexivity|]. intros ->. reflexivity. Qed.
+(* ---------- lx_span ---------- *)
+Lemma span_nil p s : match s with [] => True | c :: _ => p c = false end -> lx_span p s = ([], s).
+Proof. destruct s as [|c r]; cbn [lx_span]; [reflexivity|]. intros ->. reflexivity. Qed.
 
 Lemma span_prefix p a b : forallb p a = true ->
-  span p (a ++ b) = let '(x, r) := span p b in (a ++ x, r).
+  lx_span p (a ++ b) = let '(x, r) := lx_span p b in (a ++ x, r).
 Proof.
   induction a as [|c a IH]; cbn [forallb app].
-  - intros _. destruct (span p b). reflexivity.
-  - rewrite andb_true_iff. intros [Hc Ha]. cbn [span]. rewrite Hc, (IH Ha).
-    destruct (span p b). reflexivity.
+  - intros _. destruct (lx_span p b). reflexivity.
+  - rewrite andb_true_iff. intros [Hc Ha]. cbn [lx_span]. rewrite Hc, (IH Ha).
+    destruct (lx_span p b). reflexivity.
 Qed.
 
 Lemma span_Forall p (P : N -> Prop) s a b :
-  (forall c, p c = true <-> P c) -> span p s = (a, b) -> Forall P a /\ ~ starts P b.
+  (forall c, p c = true <-> P c) -> lx_span p s = (a, b) -> Forall P a /\ ~ starts P b.
 Proof.
   intros H E. split.
   - eapply forallb_Forall; eauto. eapply span_all; eauto.
@@ -58,14 +58,14 @@ Proof.
 Qed.
 
 Lemma not_starts_span p (P : N -> Prop) s :
-  (forall c, p c = true <-> P c) -> ~ starts P s -> span p s = ([], s).
+  (forall c, p c = true <-> P c) -> ~ starts P s -> lx_span p s = ([], s).
 Proof.
   intros H Hs. apply span_nil. destruct s as [|c r]; [exact I|]. cbn [starts] in Hs.
   rewrite <- H in Hs. destruct (p c); congruence.
 Qed.
 
 (* ---------- the head of a text ---------- *)
-Definition lex_head (s : str) : option lout :=
+Definition lex_head (s : str) : option lx_out :=
   match s with [] => None | c :: r => Some (lex_one c r) end.
 
 (* ---------- dispatch on the first character ---------- *)
@@ -77,13 +77,13 @@ Ltac decide_eqb :=
 Ltac pick_disj :=
   solve [split; reflexivity] || (left; solve [split; reflexivity]) || (right; pick_disj).
 
-Lemma punct_kind_some c k : punct_kind c = Some k ->
-  (c = 123 /\ k = LCurly) \/ (c = 125 /\ k = RCurly) \/ (c = 33 /\ k = Bang) \/ (c = 36 /\ k = Dollar) \/
-  (c = 38 /\ k = Amp) \/ (c = 40 /\ k = LParen) \/ (c = 41 /\ k = RParen) \/ (c = 58 /\ k = Colon) \/
-  (c = 44 /\ k = Comma) \/ (c = 91 /\ k = LBracket) \/ (c = 93 /\ k = RBracket) \/ (c = 61 /\ k = Eq) \/
-  (c = 64 /\ k = At) \/ (c = 124 /\ k = Pipe).
+Lemma punct_kind_some c k : lx_punct_kind c = Some k ->
+  (c = 123 /\ k = TkLCurly) \/ (c = 125 /\ k = TkRCurly) \/ (c = 33 /\ k = TkBang) \/ (c = 36 /\ k = TkDollar) \/
+  (c = 38 /\ k = TkAmp) \/ (c = 40 /\ k = TkLParen) \/ (c = 41 /\ k = TkRParen) \/ (c = 58 /\ k = TkColon) \/
+  (c = 44 /\ k = TkComma) \/ (c = 91 /\ k = TkLBracket) \/ (c = 93 /\ k = TkRBracket) \/ (c = 61 /\ k = TkEq) \/
+  (c = 64 /\ k = TkAt) \/ (c = 124 /\ k = TkPipe).
 Proof.
-  unfold punct_kind. intros H.
+  unfold lx_punct_kind. intros H.
   repeat match type of H with
     | (if ?a =? ?b then _ else _) = _ =>
         destruct (N.eqb_spec a b) as [->|?]; [injection H as <-; pick_disj|]
@@ -93,24 +93,24 @@ Qed.
 
 Lemma punct_kind_none c :
   c <> 123 -> c <> 125 -> c <> 33 -> c <> 36 -> c <> 38 -> c <> 40 -> c <> 41 -> c <> 58 -> c <> 44 ->
-  c <> 91 -> c <> 93 -> c <> 61 -> c <> 64 -> c <> 124 -> punct_kind c = None.
-Proof. intros. unfold punct_kind. decide_eqb. reflexivity. Qed.
+  c <> 91 -> c <> 93 -> c <> 61 -> c <> 64 -> c <> 124 -> lx_punct_kind c = None.
+Proof. intros. unfold lx_punct_kind. decide_eqb. reflexivity. Qed.
 
 Lemma lex_one_name c r : is_name_start c = true ->
-  lex_one c r = let '(d, rest) := span is_name_continue r in (LTok Name, c :: d, rest).
+  lex_one c r = let '(d, rest) := lx_span is_name_continue r in (LxTok TkName, c :: d, rest).
 Proof.
   intros H. unfold lex_one. rewrite punct_kind_none, H; [reflexivity|..];
     unfold is_name_start, is_alpha in H; lia.
 Qed.
 
-Lemma lex_one_ws c r : is_ws c = true ->
-  lex_one c r = let '(d, rest) := span is_ws r in (LTok Whitespace, c :: d, rest).
+Lemma lex_one_ws c r : lx_is_ws c = true ->
+  lex_one c r = let '(d, rest) := lx_span lx_is_ws r in (LxTok TkWhitespace, c :: d, rest).
 Proof.
   intros H. apply is_ws_spec in H. unfold IgnoredChar, UnicodeBOM, WhiteSpaceChar, LineTerminatorChar in H.
   destruct H as [->|[[->| ->]|[->| ->]]]; reflexivity.
 Qed.
 
-Lemma lex_one_nonzero c r : NonZeroDigit c -> lex_one c r = num_int_digits [c] r.
+Lemma lex_one_nonzero c r : NonZeroDigit c -> lex_one c r = lx_num_int_digits [c] r.
 Proof.
   intros H. unfold NonZeroDigit in H. unfold lex_one.
   rewrite punct_kind_none by lia.
@@ -120,16 +120,16 @@ Qed.
 
 Lemma lex_one_quote r : lex_one 34 r = lex_string r. Proof. reflexivity. Qed.
 Lemma lex_one_hash r :
-  lex_one 35 r = let '(d, rest) := span not_line_term r in (LTok Comment, 35 :: d, rest).
+  lex_one 35 r = let '(d, rest) := lx_span lx_not_line_term r in (LxTok TkComment, 35 :: d, rest).
 Proof. reflexivity. Qed.
 Lemma lex_one_dot r : lex_one 46 r = lex_spread r. Proof. reflexivity. Qed.
-Lemma lex_one_minus r : lex_one 45 r = num_minus r. Proof. reflexivity. Qed.
-Lemma lex_one_zero r : lex_one 48 r = num_after_int true [48] r. Proof. reflexivity. Qed.
+Lemma lex_one_minus r : lex_one 45 r = lx_num_minus r. Proof. reflexivity. Qed.
+Lemma lex_one_zero r : lex_one 48 r = lx_num_after_int true [48] r. Proof. reflexivity. Qed.
 
 (* every other first character is an error of one character *)
 Lemma lex_one_other c r :
-  punct_kind c = None -> is_name_start c = false -> is_digit c = false -> c <> 34 -> c <> 35 ->
-  c <> 46 -> c <> 45 -> is_ws c = false -> lex_one c r = (LErr, [c], r).
+  lx_punct_kind c = None -> is_name_start c = false -> is_digit c = false -> c <> 34 -> c <> 35 ->
+  c <> 46 -> c <> 45 -> lx_is_ws c = false -> lex_one c r = (LxErr, [c], r).
 Proof.
   intros Hp Hn Hd H1 H2 H3 H4 Hw. unfold lex_one. rewrite Hp, Hn, Hd, Hw, andb_false_r.
   assert (c <> 48) by (unfold is_digit in Hd; lia).
@@ -138,7 +138,7 @@ Qed.
 
 (* the complete case analysis on the first character *)
 Inductive first_class (c : N) : Prop :=
-| FC_punct k : punct_kind c = Some k -> first_class c
+| FC_punct k : lx_punct_kind c = Some k -> first_class c
 | FC_name : is_name_start c = true -> first_class c
 | FC_nonzero : NonZeroDigit c -> first_class c
 | FC_quote : c = 34 -> first_class c
@@ -146,13 +146,13 @@ Inductive first_class (c : N) : Prop :=
 | FC_dot : c = 46 -> first_class c
 | FC_minus : c = 45 -> first_class c
 | FC_zero : c = 48 -> first_class c
-| FC_ws : is_ws c = true -> first_class c
-| FC_other : punct_kind c = None -> is_name_start c = false -> is_digit c = false -> c <> 34 ->
-    c <> 35 -> c <> 46 -> c <> 45 -> is_ws c = false -> first_class c.
+| FC_ws : lx_is_ws c = true -> first_class c
+| FC_other : lx_punct_kind c = None -> is_name_start c = false -> is_digit c = false -> c <> 34 ->
+    c <> 35 -> c <> 46 -> c <> 45 -> lx_is_ws c = false -> first_class c.
 
 Lemma first_class_total c : first_class c.
 Proof.
-  destruct (punct_kind c) as [k|] eqn:Pk; [eapply FC_punct; eauto|].
+  destruct (lx_punct_kind c) as [k|] eqn:Pk; [eapply FC_punct; eauto|].
   destruct (is_name_start c) eqn:Hn; [apply FC_name; auto|].
   destruct (N.eqb_spec c 48); [apply FC_zero; auto|].
   destruct (is_digit c) eqn:Hd; [apply FC_nonzero; unfold is_digit in Hd; unfold NonZeroDigit; lia|].
@@ -160,6 +160,6 @@ Proof.
   destruct (N.eqb_spec c 35); [apply FC_hash; auto|].
   destruct (N.eqb_spec c 46); [apply FC_dot; auto|].
   destruct (N.eqb_spec c 45); [apply FC_minus; auto|].
-  destruct (is_ws c) eqn:Hw; [apply FC_ws; auto|].
+  destruct (lx_is_ws c) eqn:Hw; [apply FC_ws; auto|].
   apply FC_other; auto.
 Qed.
